@@ -20,7 +20,7 @@ from ref import uc
 from .common import viol, merge_cases, family, ImplRun, close, short_exc, exc_site, solve_arrays, bool_vars
 
 PROPERTY = "C06"
-RULE = ("Part A: product of min runtime x min downtime (0..3 steps) x 6 initial states x {no start costs, start costs} on an "
+RULE = ("Part A: product of min runtime x min downtime (0..3 and 6 steps, i.e. also longer than the horizon) x 6 initial states x {no start costs, start costs} on an "
         "hourly grid (T=5; thorough also T=6 and a 30min grid where durations in hours differ from steps) x ALL 2^T on/off "
         "words, each word one pinned-feasibility execution of the real formulation. Part B: E1 over the plant/CHP menu "
         "(capacities, ramp, last dispatch, runtime/downtime, initial state, start/running costs, heat share, conversion, "
@@ -49,7 +49,8 @@ def initial_kwargs(ini, step_h):
 def partA_cases(tier):
     out = []
     grids = [("5xh", 1.0)] if tier == "quick" else [("5xh", 1.0), ("6xh", 1.0), ("6x30min", 0.5)]
-    for (gname, step_h), R, D, ini, sc in itertools.product(grids, range(4), range(4), INITIALS, [0.0, 7.0]):
+    RD = [0, 1, 2, 3, 6] if tier == "quick" else [0, 1, 2, 3, 5, 6, 8]   # incl. durations that exceed the remaining horizon
+    for (gname, step_h), R, D, ini, sc in itertools.product(grids, RD, RD, INITIALS, [0.0, 7.0]):
         c = dict(kind="A", grid=gname, step_h=step_h, R=R, D=D, initial=ini, start_costs=sc)
         c["key"] = chash(c)
         out.append(c)
@@ -317,7 +318,28 @@ def build_cases(tier):
     B, stats = merge_cases(family("partB", make_genB(tier), K))
     for c in B:
         c["kind"] = "B"
-    B = B + C
+    # E3: minimum runtime / downtime LONGER than the whole horizon (rolling horizon with a long-running unit)
+    L = []
+    gj = dict(S.GRIDS["5xh"])
+    for w in price_words(5, tier):
+        for which, hours in itertools.product(("min_runtime", "min_downtime"), (6, 7, 8)):
+            for ini in INITIALS:
+                for sc in (0.0, 7.0):
+                    a = dict(type="Plant", name="pl", nodes=["n1"], price="fuelc", min_cap=1.0, max_cap=10.0)
+                    a[which] = float(hours)
+                    a.update(initial_kwargs(ini, 1.0))
+                    if ini.startswith("on"):
+                        a["last_dispatch"] = 5.0
+                    if sc:
+                        a["start_costs"] = sc
+                    scn = dict(grid=gj, prices=dict(p=list(w), fuelc=[4.0] * 5), mode="mono",
+                               assets=[dict(type="SimpleContract", name="mkt", nodes=["n1"], price="p", min_cap=-15.0, max_cap=15.0), a],
+                               meta=dict(initial=ini, R=hours if which == "min_runtime" else 0, D=hours if which == "min_downtime" else 0, step_h=1.0, kind="plant"))
+                    c = dict(kind="B", family="long_durations", scenario=scn, deviations=[[which, hours], ["initial", ini]], choices=[], cost=0)
+                    c["key"] = chash(scn)
+                    L.append(c)
+    B = B + C + L
+    stats["long_duration_cases"] = len(L)
     stats["transitions"] += stC["transitions"]
     stats["partC_cases"] = len(C)
     stats["partA_tuples"] = len(A)
